@@ -278,8 +278,203 @@ func init() {
 				`case *pyRange: return name == "range" case pyList: return name == "list" case pyDict: return name == "dict" case *pyConfig: return name == "config" `+
 				`case *pyFunc: return name == "callable" } return false }`)
 
+		// ---- pyDict.Property / pyFrozenDict.Property: TRANSLATED into decision programs over
+		//      (is `name` a key? is it in dictMethods? is it a given literal?)
+		stmtText := func(st ast.Stmt) string {
+			return bodyText(fset, &ast.FuncDecl{Name: ast.NewIdent("x"), Body: &ast.BlockStmt{List: []ast.Stmt{st}}})
+		}
+		propRecv := func(fn *ast.FuncDecl, what string) {
+			if len(fn.Recv.List[0].Names) != 1 || fn.Recv.List[0].Names[0].Name != "d" || len(fn.Type.Params.List) != 2 ||
+				len(fn.Type.Params.List[0].Names) != 1 || fn.Type.Params.List[0].Names[0].Name != "scope" ||
+				len(fn.Type.Params.List[1].Names) != 1 || fn.Type.Params.List[1].Names[0].Name != "name" {
+				failShape("%s: receiver / parameters are not (d) (scope *scope, name string)", what)
+			}
+		}
+		isPanic := func(st ast.Stmt) bool {
+			if es, ok := st.(*ast.ExprStmt); ok {
+				if c, ok := es.X.(*ast.CallExpr); ok {
+					if id, ok := c.Fun.(*ast.Ident); ok && id.Name == "panic" {
+						return true
+					}
+				}
+			}
+			return false
+		}
+		// `name == "lit"` -> lit
+		nameIs := func(e ast.Expr) (string, bool) {
+			be, ok := e.(*ast.BinaryExpr)
+			if !ok || be.Op != token.EQL || exprText(be.X) != "name" {
+				return "", false
+			}
+			bl, ok := be.Y.(*ast.BasicLit)
+			if !ok || bl.Kind != token.STRING {
+				return "", false
+			}
+			return unquote(bl), true
+		}
+		var transProp func(what string, ss []ast.Stmt) string
+		transProp = func(what string, ss []ast.Stmt) string {
+			if len(ss) == 0 {
+				failShape("%s: a path falls out of the function", what)
+			}
+			switch st := ss[0].(type) {
+			case *ast.ReturnStmt:
+				if len(st.Results) == 1 && exprText(st.Results[0]) == "d.pyDict.Property(scope, name)" {
+					return "PDelegate"
+				}
+				failShape("%s: unrecognised return %s", what, stmtText(st))
+			case *ast.ExprStmt:
+				if isPanic(st) {
+					return "PPanic"
+				}
+				failShape("%s: unrecognised statement %s", what, stmtText(st))
+			case *ast.IfStmt:
+				// what follows when the condition does not hold
+				rest := func() string {
+					switch e := st.Else.(type) {
+					case nil:
+						return transProp(what, ss[1:])
+					case *ast.IfStmt:
+						return transProp(what, append([]ast.Stmt{e}, ss[1:]...))
+					case *ast.BlockStmt:
+						return transProp(what, append(append([]ast.Stmt{}, e.List...), ss[1:]...))
+					}
+					failShape("%s: unrecognised else", what)
+					return ""
+				}
+				if st.Init != nil {
+					as, ok := st.Init.(*ast.AssignStmt)
+					if !ok || as.Tok != token.DEFINE || len(as.Lhs) != 2 || len(as.Rhs) != 1 || exprText(st.Cond) != exprText(as.Lhs[1]) {
+						failShape("%s: unrecognised if-with-init %s", what, stmtText(st))
+					}
+					bound := exprText(as.Lhs[0])
+					switch exprText(as.Rhs[0]) {
+					case "d[name]", "d.pyDict[name]":
+						if len(st.Body.List) != 1 || stmtText(st.Body.List[0]) != "{ return "+bound+" }" {
+							failShape("%s: the key branch does not return the member: %s", what, stmtText(st))
+						}
+						return "(PIfKey " + rest() + ")"
+					case "scope.interpreter.dictMethods[name]":
+						// [if name == "x" { panic(...) }]* return <bound>.Member(d | d.pyDict)
+						rejected := []string{}
+						body := st.Body.List
+						for len(body) > 1 {
+							ifs, ok := body[0].(*ast.IfStmt)
+							if !ok || ifs.Init != nil || ifs.Else != nil || len(ifs.Body.List) != 1 || !isPanic(ifs.Body.List[0]) {
+								failShape("%s: unrecognised statement in the method branch: %s", what, stmtText(body[0]))
+							}
+							lit, ok := nameIs(ifs.Cond)
+							if !ok {
+								failShape("%s: unrecognised condition in the method branch: %s", what, exprText(ifs.Cond))
+							}
+							rejected = append(rejected, lit)
+							body = body[1:]
+						}
+						if len(body) != 1 || (stmtText(body[0]) != "{ return "+bound+".Member(d) }" && stmtText(body[0]) != "{ return "+bound+".Member(d.pyDict) }") {
+							failShape("%s: the method branch does not return the bound method: %s", what, stmtText(st))
+						}
+						return "(PIfMethod " + coqStringList(rejected) + " " + rest() + ")"
+					}
+					failShape("%s: unrecognised lookup %s", what, exprText(as.Rhs[0]))
+				}
+				lit, ok := nameIs(st.Cond)
+				if !ok || !terminates(st.Body.List) {
+					failShape("%s: unrecognised if %s", what, stmtText(st))
+				}
+				return "(PIfName " + coqString(lit) + " " + transProp(what, st.Body.List) + " " + rest() + ")"
+			}
+			failShape("%s: unrecognised statement %T", what, ss[0])
+			return ""
+		}
+		dp := findFunc(f, "pyDict", "Property")
+		propRecv(dp, "pyDict.Property")
+		dictProp := transProp("pyDict.Property", dp.Body.List)
+		if strings.Contains(dictProp, "PDelegate") {
+			failShape("pyDict.Property delegates to an embedded dict it does not have")
+		}
+		fdp := findFunc(f, "pyFrozenDict", "Property")
+		propRecv(fdp, "pyFrozenDict.Property")
+		frozenProp := transProp("pyFrozenDict.Property", fdp.Body.List)
+
+		// the keys of interpreter.dictMethods (builtins.go)
+		methodNames := []string{}
+		ast.Inspect(fb, func(n ast.Node) bool {
+			as, ok := n.(*ast.AssignStmt)
+			if !ok || len(as.Lhs) != 1 || len(as.Rhs) != 1 {
+				return true
+			}
+			if lhs := bodyText(fsetB, &ast.FuncDecl{Name: ast.NewIdent("x"), Body: &ast.BlockStmt{List: []ast.Stmt{&ast.ExprStmt{X: as.Lhs[0]}}}}); lhs != "{ s.interpreter.dictMethods }" {
+				return true
+			}
+			cl, ok := as.Rhs[0].(*ast.CompositeLit)
+			if !ok || len(methodNames) > 0 {
+				failShape("interpreter.dictMethods is assigned twice, or not a map literal")
+			}
+			for _, el := range cl.Elts {
+				kv, ok := el.(*ast.KeyValueExpr)
+				if !ok {
+					failShape("interpreter.dictMethods: element without key")
+				}
+				bl, ok := kv.Key.(*ast.BasicLit)
+				if !ok || bl.Kind != token.STRING {
+					failShape("interpreter.dictMethods: key is not a string literal")
+				}
+				methodNames = append(methodNames, unquote(bl))
+			}
+			return true
+		})
+		if len(methodNames) == 0 {
+			failShape("no assignment `s.interpreter.dictMethods = map[string]*pyFunc{...}` in builtins.go")
+		}
+
+		// ---- plugin configuration (config.go): how loadPluginConfig stores the dict is TRANSLATED; what pluginConfig
+		//      puts into it for a repeatable / plain field is pinned
+		fsetC, fc := parseFile("src/parse/asp/config.go")
+		lp := findFunc(fc, "interpreter", "loadPluginConfig")
+		lpText := bodyText(fsetC, lp)
+		const lpHead = `{ if pluginState.RepoConfig == nil { return } pluginName := pluginState.RepoConfig.PluginDefinition.Name if pluginName == "" { return } ` +
+			`log.Debugf("Loading configuration for plugin %s", pluginName) if s.config.overlay == nil { s.config.overlay = pyDict{} } key := strings.ToUpper(pluginName) ` +
+			`if _, ok := s.config.overlay[key]; ok { return } `
+		if !strings.HasPrefix(lpText, lpHead) {
+			failShape("interpreter.loadPluginConfig no longer starts the way Model/C18_Attr.v load_plugin_config was written from.\n  found: %s", lpText)
+		}
+		pluginStore := ""
+		switch strings.TrimSpace(strings.TrimSuffix(strings.TrimPrefix(lpText, lpHead), "}")) {
+		case "cfg := pluginConfig(pluginState, s.state) s.config.overlay[key] = cfg", "s.config.overlay[key] = pluginConfig(pluginState, s.state)":
+			pluginStore = "PStorePlain"
+		case "cfg := pluginConfig(pluginState, s.state) s.config.overlay[key] = cfg.Freeze()", "s.config.overlay[key] = pluginConfig(pluginState, s.state).Freeze()",
+			"cfg := pluginConfig(pluginState, s.state).Freeze() s.config.overlay[key] = cfg":
+			pluginStore = "PStoreFrozen"
+		default:
+			failShape("interpreter.loadPluginConfig: unrecognised way of storing the plugin's config: %s", strings.TrimPrefix(lpText, lpHead))
+		}
+		pc := bodyText(fsetC, findFunc(fc, "", "pluginConfig"))
+		for _, piece := range []string{
+			`if pkgState.ParentState == nil { extraVals = getExtraVals(pkgState.RepoConfig, pluginName) ret = pyDict{} }`,
+			`value, ok := extraVals[strings.ToLower(configKey)] if !ok { value = resolvePluginValue(definition.DefaultValue, pluginState.CurrentSubrepo) } else { value = resolvePluginValue(value, pkgState.CurrentSubrepo) }`,
+			`if definition.Repeatable { l := make(pyList, 0, len(value)) for _, v := range value { l = append(l, toPyObject(fullConfigKey, v, definition.Type, definition.Optional)) } ret[key] = l } ` +
+				`else { val := "" if len(value) == 1 { val = value[0] } ret[key] = toPyObject(fullConfigKey, val, definition.Type, definition.Optional) } } return ret }`,
+		} {
+			if !strings.Contains(pc, piece) {
+				failShape("pluginConfig no longer contains `%s`", piece)
+			}
+		}
+		tp := bodyText(fsetC, findFunc(fc, "", "toPyObject"))
+		if !strings.HasPrefix(tp, `{ if optional && val == "" { return pyNone{} } switch toType { case "", "str": return pyString(val) `) {
+			failShape("toPyObject no longer starts with the None / str cases the model (to_py) was written from")
+		}
+
 		return "(* src/parse/asp/objects.go (see harness/cmd/gotrans/c18pins.go) *)\n" +
-			"From Coq Require Import List. Import ListNotations.\n" +
+			"From Coq Require Import List String. Import ListNotations. Open Scope string_scope.\n" +
+			"(* pyDict.Property and pyFrozenDict.Property as decision programs; the keys of interpreter.dictMethods *)\n" +
+			"Inductive prop_prog := PIfKey (els : prop_prog) | PIfMethod (rejected : list string) (els : prop_prog)\n" +
+			"  | PIfName (n : string) (thn els : prop_prog) | PDelegate | PPanic.\n" +
+			"Definition dict_property_prog : prop_prog := " + dictProp + ".\n" +
+			"Definition frozen_dict_property_prog : prop_prog := " + frozenProp + ".\n" +
+			"Definition dict_method_names : list string := " + coqStringList(methodNames) + ".\n" +
+			"(* loadPluginConfig: the plugin's config dict is stored in the overlay as it is / frozen *)\n" +
+			"Inductive plugin_store_mode := PStorePlain | PStoreFrozen.\n" +
+			"Definition plugin_store : plugin_store_mode := " + pluginStore + ".\n" +
 			"(* the `case Add:` clause of pyList.Operator as a decision tree *)\n" +
 			"Inductive add_cond := AIsList | AIsFrozen | ALeftEmpty | ARightEmpty.\n" +
 			"Inductive add_tree := AIf (c : add_cond) (thn els : add_tree) | AConcat | AConcatUnwrapped | AReturnOperand | AReturnSelf | APanic.\n" +
